@@ -348,7 +348,7 @@ fn relation(c: &mut Ctx, sig: &str, name: &str, holds: bool, detail: &Value) {
 // basic completeness: every subset of slots with caller-chosen commitment scalars
 
 fn basic_cases<const N: usize>(c: &mut Ctx) {
-    let variants = c.tier.pick(7usize, 25);
+    let variants = c.tier.pick(12usize, 25);
     for ty in Ty::ALL {
         for v in 0..variants {
             let name = format!("basic/{}/N={}/msg{}", ty.short(), N, v);
@@ -403,7 +403,7 @@ fn basic_cases<const N: usize>(c: &mut Ctx) {
 // patterns inside one proof
 
 fn within_cases<const N: usize>(c: &mut Ctx) {
-    let insts = c.tier.pick(1usize, 8);
+    let insts = c.tier.pick(2usize, 8);
     for ty in Ty::ALL {
         for inst in 0..insts {
             let name = format!("pattern/within/{}/N={}/{}", ty.short(), N, inst);
@@ -522,7 +522,7 @@ fn within_cases<const N: usize>(c: &mut Ctx) {
 // patterns across two and three proofs of the same length
 
 fn across_cases<const N: usize>(c: &mut Ctx) {
-    let insts = c.tier.pick(1usize, 6);
+    let insts = c.tier.pick(2usize, 6);
     for ta in Ty::ALL {
         for inst in 0..insts {
             let name = format!("pattern/across/{}/N={}/{}", ta.short(), N, inst);
@@ -685,7 +685,7 @@ fn cross_len<const N: usize, const M: usize>(c: &mut Ctx) {
 // four proofs (and a range constraint) under one challenge
 
 fn conj4_cases<const N: usize>(c: &mut Ctx, m: &'static Merchant) {
-    let insts = c.tier.pick(1usize, 6);
+    let insts = c.tier.pick(2usize, 6);
     for rot in 0..4usize {
         for inst in 0..insts {
             let name = format!("pattern/four-proofs/N={}/rot{}/{}", N, rot, inst);
@@ -941,10 +941,10 @@ fn range_cases(c: &mut Ctx, m: &'static Merchant) {
                     }
                 }
             } else {
-                // three tuple lengths per (value, type), rotating so that every length and many
+                // four tuple lengths per (value, type), rotating so that every length and many
                 // slots are reached
-                for k in 0..3usize {
-                    let n = NS[(vi + ti + 2 * k) % 6];
+                for k in 0..4usize {
+                    let n = NS[(vi + ti + [0, 2, 4, 1][k]) % 6];
                     range_dispatch(c, m, n, ty, vname, *v, vi + ti * 3 + k * 5);
                 }
             }
